@@ -390,6 +390,7 @@ class Interp:
         if key in self.classes:
             return self.classes[key]
         ci = ClassInfo(node.name, mod, node, qualname=qual or node.name)
+        ci.def_env = env          # enclosing scope of a locally defined class (closure of its methods)
         self.classes[key] = ci
         base_env = env or self._module_env(mod)
         for b in node.bases:
@@ -444,7 +445,7 @@ class Interp:
                 if name in c.members:
                     st = c.members[name]
                     if isinstance(st, ast.FunctionDef):
-                        v = self.make_func(st, c.module, None, c, f'{c.qualname}.{st.name}')
+                        v = self.make_func(st, c.module, getattr(c, 'def_env', None), c, f'{c.qualname}.{st.name}')
                     elif isinstance(st, ast.ClassDef):
                         v = self.make_class(st, c.module, qual=f'{c.qualname}.{st.name}')
                     elif isinstance(st, ast.AnnAssign):
@@ -1098,6 +1099,8 @@ class Interp:
             return it._iterate()
         if isinstance(it, ClassInfo) and it.is_enum:
             return iter(list(it.enum_members))
+        if isinstance(it, (set, frozenset)) and len(it) > 1 and core.CTX is not None:
+            core.CTX.event('taint', 'iteration over a set (order depends on the hash seed)', sorted(map(str, it)))
         if isinstance(it, (list, tuple, dict, set, frozenset, str, range)) or hasattr(it, '__next__'):
             return iter(it)
         if isinstance(it, (type({}.keys()), type({}.values()), type({}.items()))):
